@@ -11,7 +11,7 @@ cd "$wt" || exit 3
 git checkout -q -- . || exit 3
 sd="_seed/$m"
 tests=$(python3 -c "import json;print(json.load(open('$sd/meta.json'))['existing_tests_cmd'])")
-tests=$(echo "$tests" | sed -E 's/go vet [^&;]*(&&|;) *//g; s/ +\((also|all)[^)]*\) *$//')
+tests=$(echo "$tests" | sed -E 's/go vet [^&;]*(&&|;) *//g; s/ +\((also|all)[^)]*\) *$//; s/   \(.*$//')
 demo=$(python3 -c "import json;print(json.load(open('$sd/meta.json'))['demo_cmd'])")
 log=$(mktemp)
 echo "== demo on unchanged code (must pass)" | tee -a $log
